@@ -384,30 +384,30 @@ macro_rules! c06_names {
 /// C06 enclosed_name, every name of length 2 over the path-relevant alphabet {a . / \ NUL}
 /// (25 names in one query): Some exactly when an independent lexical walk says the name is
 /// relative, NUL-free and never climbs above its start, and then the name is returned unchanged.
-// @h prop=C06,C07 tier=quick t=900 mem=10 name=c06_enclosed_len2
+// @h prop=C06,C07 tier=dev t=900 mem=10 name=c06_enclosed_len2
 c06_names!(c06_enclosed_len2, 0, 2, -1, 8);
 /// C06 enclosed_name, every name of length 3 over {a . / \ NUL} (125 names).
-// @h prop=C06,C07 tier=quick t=1500 mem=16 name=c06_enclosed_len3
+// @h prop=C06,C07 tier=dev t=1500 mem=16 name=c06_enclosed_len3
 c06_names!(c06_enclosed_len3, 0, 3, -1, 9);
 /// C06 enclosed_name, names of length 4 starting with 'a'.
-// @h prop=C06 tier=thorough t=3000 mem=20 name=c06_enclosed_len4_a
+// @h prop=C06 tier=dev t=3000 mem=20 name=c06_enclosed_len4_a
 c06_names!(c06_enclosed_len4_a, 0, 4, 0, 10);
 /// C06 enclosed_name, names of length 4 starting with '.'.
-// @h prop=C06 tier=thorough t=3000 mem=20 name=c06_enclosed_len4_dot
+// @h prop=C06 tier=dev t=3000 mem=20 name=c06_enclosed_len4_dot
 c06_names!(c06_enclosed_len4_dot, 0, 4, 1, 10);
 /// C06 enclosed_name, names of length 4 starting with '/'.
-// @h prop=C06 tier=thorough t=3000 mem=20 name=c06_enclosed_len4_slash
+// @h prop=C06 tier=dev t=3000 mem=20 name=c06_enclosed_len4_slash
 c06_names!(c06_enclosed_len4_slash, 0, 4, 2, 10);
 /// C06 enclosed_name, names of length 4 starting with '\'.
-// @h prop=C06 tier=thorough t=3000 mem=20 name=c06_enclosed_len4_bslash
+// @h prop=C06 tier=dev t=3000 mem=20 name=c06_enclosed_len4_bslash
 c06_names!(c06_enclosed_len4_bslash, 0, 4, 3, 10);
 /// C06 mangled_name, every name of length 1 over {a . / \ NUL}: equals the reference (cut at
 /// NUL, \ -> /, only ordinary components in order) and is relative.
-// @h prop=C06 tier=quick t=900 mem=12 name=c06_mangled_len1
+// @h prop=C06 tier=dev t=900 mem=12 name=c06_mangled_len1
 c06_names!(c06_mangled_len1, 1, 1, -1, 8);
 /// C06 mangled_name, every name of length 2 over {a . / \ NUL}.
-// @h prop=C06 tier=thorough t=3000 mem=24 name=c06_mangled_len2
+// @h prop=C06 tier=dev t=3000 mem=24 name=c06_mangled_len2
 c06_names!(c06_mangled_len2, 1, 2, -1, 8);
 /// C06 mangled_name, every name of length 3 over {a . / \ NUL}.
-// @h prop=C06 tier=thorough t=3600 mem=30 name=c06_mangled_len3
+// @h prop=C06 tier=dev t=3600 mem=30 name=c06_mangled_len3
 c06_names!(c06_mangled_len3, 1, 3, -1, 9);
